@@ -1049,6 +1049,12 @@ func (e *e1Engine) boolUnder(v ssa.Value, lits []Lit, matched []int) (bool, bool
 			}
 		}
 	}
+	// nil test on what a function extracted after the rows were written returned
+	if pos, onil := nilTest(v); onil != nil {
+		if k, nn := e.helperNil(onil, lits, matched); k {
+			return true, nn == pos
+		}
+	}
 	return e.helperBool(v, lits, matched)
 }
 
